@@ -12,7 +12,7 @@ Definition e_poly : expr :=
       (EF1 TC_Sin (EAdd (NInt 0) [(X, NInt 1); (Y, NInt 1)]), NInt 1);
       (EF1 TC_Cos (EAdd (NInt 0) [(Y, NInt 1); (X, NInt 1)]), NInt 1) ].
 Example C39_nonvacuous_free_symbols :
-  tree_ok e_poly = true /\ guard_set_binder e_poly = false /\ guard_subs e_poly = false /\
+  tree_ok e_poly = true /\ nums_ok e_poly = true /\ guard_set_binder e_poly = false /\ guard_subs e_poly = false /\
   free_symbols e_poly = [X; Y] /\ has_symbol e_poly Y = Some true /\ has_symbol e_poly Z_ = Some false.
 Proof. vm_compute. repeat split; reflexivity. Qed.
 
@@ -28,6 +28,12 @@ Proof.
   split; [reflexivity|]. split; [reflexivity|]. split; [reflexivity|].
   split; [apply free_symbols_spec_guarded; reflexivity|vm_compute; reflexivity].
 Qed.
+
+(* atoms<Add>: the two eq sums x + y / y + x are represented by one of them (closure_exact fails) *)
+Example C39_nonvacuous_atoms_same :
+  atoms [KAdd] e_poly = [EAdd (NInt 0) [(X, NInt 1); (Y, NInt 1)]; e_poly] /\
+  expr_eqb (EAdd (NInt 0) [(Y, NInt 1); (X, NInt 1)]) (EAdd (NInt 0) [(X, NInt 1); (Y, NInt 1)]) = true.
+Proof. vm_compute. split; reflexivity. Qed.
 
 (* atoms: f(x, g(y)) *)
 Definition e_fun : expr := EFunSym [102] [X; EFunSym [103] [Y]].
